@@ -24,3 +24,5 @@ pub mod c05;
 pub mod c06;
 #[cfg(kani)]
 pub mod c02;
+#[cfg(kani)]
+pub mod c16_pageid;
